@@ -1,7 +1,7 @@
 package rules
 
 import (
-	"regexp"
+	"sort"
 	"go/token"
 	"strings"
 
@@ -11,8 +11,6 @@ import (
 )
 
 func init() { Register("C15", c15) }
-
-var modeAssignRe = regexp.MustCompile(`(?i)\b\w*mode\s*:?=\s*(Never|Monitor|Always)\b`)
 
 func c15(x *Ctx) {
 	c := x.C
@@ -223,28 +221,68 @@ func c15(x *Ctx) {
 	// ---- mode strings -------------------------------------------------------------------------------
 	const r5 = "C15.mode-strings"
 	if uc := x.Fn(r5, "collect", "StressRelief", "UpdateFromConfig"); uc != nil {
-		ts := x.switches(x.pkgOf(uc), uc.Syntax(), func(tag string) bool { return strings.HasSuffix(tag, ".Mode") })
-		if len(ts) != 1 {
-			c.Undecided(r5, "UpdateFromConfig/switch", x.PosOf(uc.Pos()), "no switch on the configured mode string")
-		} else {
-			want := map[string]string{"never": "Never", "": "Never", "monitor": "Monitor", "always": "Always"}
-			got := map[string]string{}
-			for i, cl := range ts[0].Clauses {
-				body := nodeString(x, ts[0].Bodies[i])
-				for _, l := range cl {
-					// `s.mode = Never`, or a local that is stored into the field afterwards (`mode = Never`)
-					if m := modeAssignRe.FindStringSubmatch(body); m != nil {
-						got[l] = m[1]
+		// for each configured string: assume every comparison of the mode string with a literal has the outcome
+		// that string gives it, and look at what is stored into the mode field on the paths that remain (a switch
+		// and an if/else chain are the same thing here; the value may travel through a local)
+		modeF := eng.FieldIs("collect", "StressRelief", "mode")
+		want := map[string]string{"never": "Never", "": "Never", "monitor": "Monitor", "always": "Always"}
+		val := map[string]int64{}
+		for _, m := range []string{"Never", "Monitor", "Always"} {
+			if k, ok := lookupIntConst(x, "collect", m); ok {
+				val[m] = k
+			}
+		}
+		isModeString := func(v ssa.Value) bool {
+			_, ok := eng.Derives(v, func(w ssa.Value) bool {
+				fr, _, ok := eng.LoadedField(w)
+				return ok && fr.Name == "Mode"
+			}, eng.FlowOpts{})
+			return ok
+		}
+		bad := ""
+		compared := 0
+		for _, lit := range []string{"never", "", "monitor", "always"} {
+			lit := lit
+			as := &eng.Assume{Bool: func(v ssa.Value) eng.Tri {
+				b, ok := v.(*ssa.BinOp)
+				if !ok || (b.Op != token.EQL && b.Op != token.NEQ) {
+					return eng.Unknown
+				}
+				sv, other := b.X, b.Y
+				k, isK := eng.ConstString(other)
+				if !isK {
+					sv, other = b.Y, b.X
+					k, isK = eng.ConstString(other)
+				}
+				if !isK || !isModeString(sv) {
+					return eng.Unknown
+				}
+				compared++
+				return triOf((k == lit) == (b.Op == token.EQL))
+			}}
+			got := map[int64]bool{}
+			unknown := false
+			eng.Explore(eng.Query{Fn: uc, Assume: as, TrackPhi: func(*ssa.Phi) bool { return true }, Classify: func(in ssa.Instruction, F eng.Facts) eng.Event {
+				if st, ok := in.(*ssa.Store); ok {
+					if fr, _, ok := eng.FieldRefOf(st.Addr); ok && modeF(fr) {
+						if k, ok := eng.ConstInt(F.Resolve(st.Val)); ok {
+							got[k] = true
+						} else {
+							unknown = true
+						}
 					}
 				}
+				return eng.EvNone
+			}})
+			wantV, have := val[want[lit]]
+			if !have || unknown || len(got) != 1 || !got[wantV] {
+				bad += sprintf("%q→%v (want %s) ", lit, keysOfInt(got), want[lit])
 			}
-			bad := ""
-			for k, v := range want {
-				if got[k] != v {
-					bad += "\"" + k + "\"→" + got[k] + " (want " + v + ") "
-				}
-			}
-			c.Decide(bad == "", r5, "UpdateFromConfig/table", x.PosOf(ts[0].Pos), "never|\"\"→Never, monitor→Monitor, always→Always", "mode strings are mapped wrongly: "+bad)
+		}
+		if compared == 0 {
+			c.Undecided(r5, "UpdateFromConfig/table", x.PosOf(uc.Pos()), "the configured mode string is not compared with literals")
+		} else {
+			c.Decide(bad == "", r5, "UpdateFromConfig/table", x.PosOf(uc.Pos()), "never|\"\"→Never, monitor→Monitor, always→Always", "mode strings are mapped wrongly: "+bad)
 		}
 		n := 0
 		for _, e := range x.Callers(uc) {
@@ -463,4 +501,13 @@ func fieldNameOf(in ssa.Instruction) string {
 		}
 	}
 	return "?"
+}
+
+func keysOfInt(m map[int64]bool) []int64 {
+	var out []int64
+	for k := range m {
+		out = append(out, k)
+	}
+	sort.Slice(out, func(i, j int) bool { return out[i] < out[j] })
+	return out
 }
